@@ -187,6 +187,23 @@ func (w *Worker) stepMore(s *State, f *Frame, in ssa.Instruction) ([]*State, boo
 		switch b := w.val(s, f, x.X).(type) {
 		case PtrV:
 			arr := s.load(b).(ArrayV)
+			if !iv.C {
+				// symbolic index into an array: fork over positions
+				n := len(arr.E)
+				var conds []string
+				for i := 0; i < n; i++ {
+					conds = append(conds, tEq(iv.T, fmt.Sprint(i)))
+				}
+				conds = append(conds, "(or (< "+iv.T+" 0) (>= "+iv.T+" "+fmt.Sprint(n)+"))")
+				return w.forkChoices(s, conds, func(st *State, i int) {
+					if i == n {
+						panic(goPanic{"index out of range"})
+					}
+					cf := cur(st)
+					cf.Env[x] = PtrV{b.Obj, extPath(b.Path, i)}
+					cf.PC++
+				})
+			}
 			idx := concreteInt(iv, "array index")
 			if idx < 0 || idx >= len(arr.E) {
 				panic(goPanic{"index out of range"})
